@@ -535,6 +535,10 @@ func c41TransitionLimit(c *eng.Ctx, tr *ssa.Function) {
 			if b, ok := a.V.(*ssa.BinOp); ok && a.Pos && b.Op == token.LSS && eng.Render(b.X) == "p0.maximumEntryCount" && b.Y == ssa.Value(cnt) {
 				over = true
 			}
+			// `count > maximum` is the same test
+			if b, ok := a.V.(*ssa.BinOp); ok && a.Pos && b.Op == token.GTR && eng.Render(b.Y) == "p0.maximumEntryCount" && b.X == ssa.Value(cnt) {
+				over = true
+			}
 		}
 		if !over {
 			continue
